@@ -107,6 +107,88 @@ fn eval(a: &[String]) -> String {
       let r = m.next(v[2] as isize);
       format!("{} {}", r.get_sixty_cycle_year().get_year(), r.get_sixty_cycle().get_index())
     }
+    "lunar_order" => {
+      // which(0 before,1 after) L  am aleap ad  bm bleap bd : both days in one real year whose leap month is L
+      use tyme4rs::tyme::lunar::{LunarDay, LunarYear};
+      let mut out = "NONE".to_string();
+      for y in (1900..2200).chain(1..1900).chain(2200..9999) {
+        if LunarYear::from_year(y).get_leap_month() as i64 != v[1] { continue; }
+        let a = LunarDay::new(y, (if v[3] == 1 { -v[2] } else { v[2] }) as isize, v[4] as usize);
+        let b = LunarDay::new(y, (if v[6] == 1 { -v[5] } else { v[5] }) as isize, v[7] as usize);
+        if let (Ok(a), Ok(b)) = (a, b) {
+          let r = if v[0] == 0 { a.is_before(b.clone()) } else { a.is_after(b.clone()) };
+          out = format!("{} {} {}", r, a.get_lunar_month().get_index_in_year(), b.get_lunar_month().get_index_in_year());
+          break;
+        }
+      }
+      out
+    }
+    "lunar_month_new" => {
+      // L0 month : LunarMonth::new in a real year whose leap month is L0 -> "ok index month leap" | "err"
+      use tyme4rs::tyme::lunar::{LunarMonth, LunarYear};
+      let mut out = "NONE".to_string();
+      for y in (1900..2200).chain(1..1900).chain(2200..9999) {
+        if LunarYear::from_year(y).get_leap_month() as i64 != v[0] { continue; }
+        out = match LunarMonth::new(y, v[1] as isize) { Ok(m) => format!("ok {} {} {}", m.get_index_in_year(), m.get_month(), m.is_leap()), Err(_) => "err".to_string() };
+        break;
+      }
+      out
+    }
+    "lunar_day_new" => {
+      // day count, day : LunarDay::new on a real month with that many days
+      use tyme4rs::tyme::lunar::{LunarDay, LunarMonth};
+      let mut m = LunarMonth::from_ym(2000, 1);
+      let mut out = "NONE".to_string();
+      for _ in 0..40 {
+        if m.get_day_count() as i64 == v[0] { out = format!("{}", LunarDay::new(m.get_year(), m.get_month_with_leap(), v[1] as usize).is_ok()); break; }
+        m = m.next(1);
+      }
+      out
+    }
+    "child_ratio" => {
+      // provider(0 default,1 china95,2 lunar sect2) signed seconds S from birth to the Jie
+      use tyme4rs::tyme::eightchar::provider::{ChildLimitProvider, DefaultChildLimitProvider, China95ChildLimitProvider, LunarSect2ChildLimitProvider};
+      let term = SolarTerm::from_index(2000, 3);
+      let t = term.get_julian_day().get_solar_time();
+      let birth = t.next(-(v[1] as isize));
+      let info = match v[0] { 0 => DefaultChildLimitProvider::new().get_info(birth, term), 1 => China95ChildLimitProvider::new().get_info(birth, term), _ => LunarSect2ChildLimitProvider::new().get_info(birth, term) };
+      format!("{} {} {} {} {}", info.get_year_count(), info.get_month_count(), info.get_day_count(), info.get_hour_count(), info.get_minute_count())
+    }
+    "child_add_scan" => {
+      // scan real births (both genders) for an end instant that is not birth + (years, months, days, hours, minutes) carried
+      // through the real month lengths; prints the first offender or NONE.  v = [first year, number of years]
+      use tyme4rs::tyme::eightchar::ChildLimit;
+      use tyme4rs::tyme::enums::Gender;
+      let mut out = "NONE".to_string();
+      let mut day = SolarDay::from_ymd(v[0] as isize, 1, 1);
+      'scan: for _ in 0..(v[1] * 366) {
+        for (h, mi, s) in [(0usize, 0usize, 0usize), (11, 13, 21), (23, 59, 59)] {
+          for g in [Gender::MAN, Gender::WOMAN] {
+            let b = SolarTime::from_ymd_hms(day.get_year(), day.get_month(), day.get_day(), h, mi, s);
+            let c = ChildLimit::from_solar_time(b, g);
+            let e = c.get_end_time();
+            // independent addition
+            let mut secs = s as i64;
+            let mut mins = mi as i64 + c.get_minute_count() as i64 + secs / 60; secs %= 60;
+            let mut hours = h as i64 + c.get_hour_count() as i64 + mins / 60; mins %= 60;
+            let mut d = day.get_day() as i64 + c.get_day_count() as i64 + hours / 24; hours %= 24;
+            let mut ord = (day.get_year() as i64 + c.get_year_count() as i64) * 12 + (day.get_month() as i64 - 1) + c.get_month_count() as i64;
+            loop {
+              let dc = SolarMonth::from_ym((ord / 12) as isize, (ord % 12 + 1) as usize).get_day_count() as i64;
+              if d > dc { d -= dc; ord += 1; } else { break; }
+            }
+            let exp = (ord / 12, ord % 12 + 1, d, hours, mins, secs);
+            let got = (e.get_year() as i64, e.get_month() as i64, e.get_day() as i64, e.get_hour() as i64, e.get_minute() as i64, e.get_second() as i64);
+            if exp != got || e.is_before(b) {
+              out = format!("birth {}-{}-{} {}:{}:{} end {:?} expected {:?}", day.get_year(), day.get_month(), day.get_day(), h, mi, s, got, exp);
+              break 'scan;
+            }
+          }
+        }
+        day = day.next(1);
+      }
+      out
+    }
     "six_star" => {
       // month number, leap flag, day -> six star index on a real lunar day with these
       use tyme4rs::tyme::lunar::{LunarDay, LunarYear};
